@@ -256,8 +256,8 @@ class Derived(Harness):
         fullF = sol.full_F
         d_full, d_unit, d_pow, d_ns = [], [], [], []
         for k in range(K):
-            want = sh.F[k] * Mk.sqrt(P[k]) if not isinstance(P[k], int) else \
-                sh.F[k]
+            want = sh.F[k] * (Mk.sqrt(P[k]) if not isinstance(P[k], int)
+                              else math.sqrt(P[k]))
             d_full.append(fullF[k] - want)
             d_full.append(sol.F[k] - sh.F[k])
             if sh.unit:
@@ -294,7 +294,7 @@ class Derived(Harness):
             prove('full_W=(full_W_H)^H', d_fw)
 
     # ---- numeric ---------------------------------------------------------------------
-    def _numeric(self, cfg, hist, rng):
+    def _numeric(self, cfg, hist, rng, scale=1.0, kind=None):
         class Mk:
             symbolic = False
             sqrt = staticmethod(np.sqrt)
@@ -305,7 +305,13 @@ class Derived(Harness):
 
             @staticmethod
             def pos(name):
-                return rng.uniform(0.2, 3.0)
+                v = rng.uniform(0.2, 3.0) * scale
+                if kind == 'int':
+                    return int(rng.randrange(1, 5))
+                if kind is not None:
+                    return kind(rng.randrange(1, 5)) if np.issubdtype(
+                        kind, np.integer) else kind(v)
+                return v
 
             @staticmethod
             def herm(a):
@@ -321,7 +327,8 @@ class Derived(Harness):
                 d = np.asarray(d)
                 if d.dtype == object:
                     d = np.array(d.tolist(), dtype=complex)
-                if d.size and np.max(np.abs(d)) > 1e-8:
+                if d.size and np.max(np.abs(d)) > (
+                        1e-5 if kind is np.float32 else 1e-8):
                     bad.append(name)
         try:
             for op in hist:
@@ -356,6 +363,24 @@ class Derived(Harness):
             if bad and _classify(hist, bad) not in KNOWN_CLASSES:
                 raise AssertionError('%r: %r' % (hist, bad))
             n += 1
+        # the relations do not depend on the magnitude of the powers nor on
+        # the numeric type that carries them (invisible to the exact-real
+        # model: concrete runs of the real code)
+        from pysym.runner import ConcreteViolation
+        for seq in cfg['seqs'][:6]:
+            hist = [cfg['first'], 'W'] + list(seq)
+            for scale, kind in ((1e-12, None), (1e-9, None), (1e6, None),
+                                (1.0, np.float32), (1.0, np.int64),
+                                (1.0, np.int32), (1.0, 'int'),
+                                (1.0, np.float64)):
+                bad = self._numeric(cfg, hist, rng, scale=scale, kind=kind)
+                if bad and _classify(hist, bad) not in KNOWN_CLASSES:
+                    raise ConcreteViolation(
+                        'C10/iabase/power-%s:%s' % (
+                            'magnitude' if kind is None else 'type',
+                            '+'.join(bad)),
+                        dict(history=hist, scale=scale, kind=str(kind)))
+                n += 1
         return n
 
 
